@@ -257,6 +257,12 @@ func wireHandshake(run *vh.Run) {
 		if err != nil {
 			panic(err)
 		}
+		// a peer that only speaks the legacy versions and presents the identifier of the genesis era, as those versions
+		// expect it: the status the legacy handshakers accept, so that every single deviation from it is meaningful there
+		legacyPeer := rng.Chance(1, 4)
+		if legacyPeer {
+			cid, _ = genesisID.Bytes()
+		}
 		role := []types.PeerRole{types.PeerRole_LegacyVersion, types.PeerRole_Producer, types.PeerRole_Watcher}[rng.Intn(3)]
 		sender := &types.PeerAddress{Address: addrsOK[rng.Intn(len(addrsOK))], Port: uint32(1 + rng.Intn(65535)), PeerID: []byte(peerID), Role: role, Version: "v2.0.0"}
 		if rng.Bool() {
@@ -342,24 +348,27 @@ func wireHandshake(run *vh.Run) {
 		inbound := rng.Chance(2, 3)
 		// versions: what the peer offers (inbound) / answers (outbound)
 		var offered []p2pcommon.P2PVersion
-		switch rng.Intn(12) {
-		case 0:
+		switch k := rng.Intn(12); {
+		case legacyPeer:
+			offered = [][]p2pcommon.P2PVersion{{p2pcommon.P2PVersion032}, {p2pcommon.P2PVersion031}, {p2pcommon.P2PVersion031, p2pcommon.P2PVersion032},
+				{p2pcommon.P2PVersion032, p2pcommon.P2PVersion030}}[rng.Intn(4)]
+		case k == 0:
 			offered = []p2pcommon.P2PVersion{p2pcommon.P2PVersion200}
-		case 1:
+		case k == 1:
 			offered = []p2pcommon.P2PVersion{p2pcommon.P2PVersion033}
-		case 2:
+		case k == 2:
 			offered = []p2pcommon.P2PVersion{p2pcommon.P2PVersion032}
-		case 3, 4:
+		case k == 3, k == 4:
 			offered = []p2pcommon.P2PVersion{p2pcommon.P2PVersion031}
-		case 5:
+		case k == 5:
 			offered = append([]p2pcommon.P2PVersion{}, wireVersions...)
-		case 6:
+		case k == 6:
 			offered = []p2pcommon.P2PVersion{p2pcommon.P2PVersion031, p2pcommon.P2PVersion032, p2pcommon.P2PVersion033, p2pcommon.P2PVersion200}
-		case 7:
+		case k == 7:
 			offered = []p2pcommon.P2PVersion{p2pcommon.P2PVersion030, p2pcommon.P2PVersion(rng.Next()), p2pcommon.P2PVersionUnknown}[:1+rng.Intn(3)]
-		case 8:
+		case k == 8:
 			offered = []p2pcommon.P2PVersion{p2pcommon.P2PVersion030, wireVersions[rng.Intn(4)], p2pcommon.P2PVersion(0x00020001)}
-		case 9:
+		case k == 9:
 			for k := rng.Intn(p2pcommon.HSMaxVersionCnt + 3); k > 0; k-- {
 				offered = append(offered, wireVersions[rng.Intn(4)])
 			}
